@@ -208,7 +208,7 @@ pub fn run(ctx: &Ctx) -> i32 {
         }
       }
       Job::Class(d) => {
-        for h in class_cells(*d) {
+        for h in class_cells(*d).into_iter().chain(carry_cells(*d, false).into_iter()) {
           do_cell(*d, h, &mut part, "border-class-cells-7x7-offsets");
         }
         if *d == 17 {
